@@ -443,11 +443,16 @@ def games(draw, kinds=KINDS, enc_kinds=ALL_ENC, regimes=REGIMES, max_teams=8, ma
     if frag and draw(st.integers(0, 9)) == 0:
         # the values are ints / floats by isinstance, but instances of subclasses (what enum.IntEnum members, or a user's own numeric types, are)
         call["number_types"] = draw(st.sampled_from(["int-subclass", "float-subclass", "both"]))
-    if extras and draw(st.integers(0, 7)) == 0:
+    if extras and draw(st.integers(0, 4)) == 0:
         # the model has been through one call that did not complete normally before this one (osk.model_for)
         from vf import failing
 
-        call["prelude"] = draw(failing.failing_specs(cfg))
+        if draw(st.integers(0, 3)) == 0:
+            # ... namely THIS call with one number replaced by a Decimal / Fraction of the same value (failing.run_mirror)
+            call["prelude"] = {"op": "fail", "kind": "mirror", "what": draw(st.sampled_from(["outcome", "outcome", "tau"])),
+                               "as": draw(st.sampled_from(["decimal", "fraction"])), "idx": draw(st.integers(0, 7))}
+        else:
+            call["prelude"] = draw(failing.failing_specs(cfg))
     if extras and draw(st.integers(0, 7)) == 0:
         # distinct rating objects that share one id (deepcopy clones of a template with their own values): see osk.mk_teams
         call["clone_ids"] = draw(st.sampled_from(["all", "alternate"]))
